@@ -701,6 +701,11 @@ def run(ctx):
     ctx.assumptions += [
         "TLC and the Json community module are trusted",
         "field values are integers (integer valued f64, dates in whole milliseconds); text terms are the order preserving strings a < c0 < .. < c9 < zz",
+        "fractional intervals: field q holds i/20 (odd i), histograms on q use intervals 0.1 .. 0.5 given in the same units; a bucket key is read as the "
+        "integer position*interval+offset only with the certificate that it is bit-identical to the documented f64 value pos*interval+offset (any other "
+        "float is a key of no bucket of the specification, so a drifted key, a duplicate bucket or a partition-dependent key rejects); interval/offset "
+        "pairs where f64 rounding itself moves a value or a key into another bucket are not generated (q_safe; e.g. interval 0.5 offset 0.2: tantivy's "
+        "gap filling maps the key 0.7 back to position 0 and returns a spurious empty bucket 0.2 - left undecided by the property)",
         "f64 outputs are read as integers or through a certificate: n/d accepted only if (n as f64)/(d as f64) is bit-identical to the output; "
         "variance / std_deviation are compared within 0.02 / 0.2 (float error is outside the property)",
         "terms aggregations are judged only in the exact regime (distinct terms <= segment_size, checked by the specification itself: Agg!Exact)",
